@@ -1,0 +1,316 @@
+//! Verification hooks (compiled only with `RUSTFLAGS="--cfg marwood_verif"`).
+//!
+//! Everything here is add-only instrumentation for an external verification
+//! harness; with the cfg off none of it exists and the crate is unchanged.
+//! Nothing in this module writes to VM state, except the forced-collection
+//! trigger, which calls the existing `Vm::run_gc` with its utilisation test
+//! bypassed (the root enumeration, mark and sweep that run are the ordinary
+//! ones of run.rs / heap.rs).
+//!
+//! # API
+//!
+//! Construction
+//! * `Vm::verif_new(chunk_size)` — `Vm::new()` with a heap chunk size other
+//!   than `HEAP_CHUNK_SIZE` (must be a multiple of 4, gc.rs).
+//!
+//! Read-only accessors (`impl Vm`)
+//! * `verif_heap_cells() -> &[VCell]` — every heap cell, index = address.
+//! * `verif_gc_state(i) -> Option<u8>` / `verif_gc_states() -> Vec<u8>` —
+//!   per-cell collector state, 0 = Free, 1 = Allocated, 2 = Used.
+//! * `verif_free_list() -> &[usize]` — the free list as stored (the LAST
+//!   element is the next one `alloc` pops).
+//! * `verif_symbol_table() -> Vec<(String, usize)>` — name -> address, sorted
+//!   by name.
+//! * `verif_global_bindings() -> Vec<(usize, usize)>` — (symbol address, slot)
+//!   in the HashMap's iteration order (the order `run_gc` marks them in, as
+//!   long as the map is not modified in between).
+//! * `verif_global_slots() -> &[VCell]`
+//! * `verif_stack() -> &[VCell]` — `stack[0..=sp]`; `verif_stack_all()` — the
+//!   whole vector; `verif_stack_capacity()`.
+//! * `verif_sp()`, `verif_bp()`, `verif_ep()`, `verif_ip()`, `verif_acc()`.
+//! * `verif_heap_capacity()`, `verif_heap_used()`, `verif_heap_chunk_size()`.
+//!
+//! Forced collections
+//! * `verif_set_gc_every(Option<usize>)` — `Some(n)`: collect at every n-th
+//!   instruction boundary (counted over the life of the Vm, see
+//!   `verif_instructions()`), regardless of utilisation. `None`: off.
+//! * `verif_set_gc_random(Option<(u64, u64)>)` — `Some((seed, m))`: collect at
+//!   pseudo-random instruction boundaries, on average one in `m` (xorshift64
+//!   from `seed`). Both knobs may be set; a boundary selected by either
+//!   collects once.
+//! * `verif_force_gc()` — one forced collection now.
+//! * `verif_set_gc_observer(Option<Box<dyn FnMut(&Vm, GcEvent)>>)` — called
+//!   with `GcEvent::Before` after the utilisation test and before the first
+//!   root is marked, and with `GcEvent::AfterSweep` after `sweep()` and before
+//!   the growth test, for every collection that actually runs (forced or not).
+//! * `verif_gc_count()` — collections that actually ran; `verif_gc_forced_count()`.
+//! * `verif_instructions()` — instruction boundaries passed in `run_count`.
+//!
+//! Stack high-water mark (per thread, not per Vm: `Stack` derives `PartialEq`,
+//! which continuations compare by, so the counter cannot live in the struct)
+//! * `verif::sp_high_water() -> usize` — largest `sp` reached by `Stack::push`
+//!   since the last reset; `verif::reset_sp_high_water()`.
+use crate::vm::heap::Heap;
+use crate::vm::vcell::VCell;
+use crate::vm::Vm;
+use std::cell::Cell as StdCell;
+use std::fmt;
+
+/// Which point of a collection the observer is called at.
+#[derive(Debug, Clone, Copy, PartialEq, Eq)]
+pub enum GcEvent {
+    /// utilisation test passed (or bypassed); nothing marked yet
+    Before { forced: bool },
+    /// mark and sweep done; growth test not yet evaluated
+    AfterSweep { forced: bool },
+}
+
+pub type GcObserver = Box<dyn FnMut(&Vm, GcEvent)>;
+
+/// Hook state carried by the Vm (field `verif`).
+#[derive(Default)]
+pub struct VerifState {
+    gc_every: Option<usize>,
+    gc_random: Option<(u64, u64)>,
+    force_next: bool,
+    in_forced: bool,
+    instructions: u64,
+    gc_count: u64,
+    gc_forced_count: u64,
+    observer: Option<GcObserver>,
+}
+
+impl fmt::Debug for VerifState {
+    fn fmt(&self, f: &mut fmt::Formatter) -> fmt::Result {
+        write!(
+            f,
+            "VerifState {{ gc_every: {:?}, gc_random: {:?}, instructions: {}, gc_count: {} }}",
+            self.gc_every, self.gc_random, self.instructions, self.gc_count
+        )
+    }
+}
+
+thread_local! {
+    static SP_HIGH_WATER: StdCell<usize> = StdCell::new(0);
+}
+
+/// Called by `Stack::push` with the new value of `sp`.
+pub(crate) fn note_sp(sp: usize) {
+    SP_HIGH_WATER.with(|c| {
+        if sp > c.get() {
+            c.set(sp)
+        }
+    });
+}
+
+pub fn sp_high_water() -> usize {
+    SP_HIGH_WATER.with(|c| c.get())
+}
+
+pub fn reset_sp_high_water() {
+    SP_HIGH_WATER.with(|c| c.set(0));
+}
+
+impl Vm {
+    /// `Vm::new()` with the given heap chunk size.
+    pub fn verif_new(chunk_size: usize) -> Vm {
+        let mut vm = Vm {
+            heap: Heap::new(chunk_size),
+            ip: (usize::MAX, 0),
+            stack: crate::vm::stack::Stack::new(),
+            globenv: crate::vm::environment::GlobalEnvironment::new(),
+            ep: usize::MAX,
+            acc: VCell::undefined(),
+            bp: 0,
+            sys: Box::new(crate::vm::StubInterface {}),
+            last_stacktrace: None,
+            verif: VerifState::default(),
+        };
+        vm.load_builtins();
+        vm.load_prelude();
+        vm
+    }
+
+    // ------------------------------------------------------------ accessors
+    pub fn verif_heap_cells(&self) -> &[VCell] {
+        self.heap.verif_cells()
+    }
+
+    pub fn verif_gc_state(&self, index: usize) -> Option<u8> {
+        self.heap.verif_gc_state(index)
+    }
+
+    pub fn verif_gc_states(&self) -> Vec<u8> {
+        (0..self.heap.capacity())
+            .map(|i| self.heap.verif_gc_state(i).unwrap_or(0))
+            .collect()
+    }
+
+    pub fn verif_free_list(&self) -> &[usize] {
+        self.heap.verif_free_list()
+    }
+
+    pub fn verif_symbol_table(&self) -> Vec<(String, usize)> {
+        let mut v: Vec<(String, usize)> = self
+            .heap
+            .verif_symbol_table()
+            .iter()
+            .map(|(k, v)| (k.clone(), *v))
+            .collect();
+        v.sort();
+        v
+    }
+
+    pub fn verif_global_bindings(&self) -> Vec<(usize, usize)> {
+        self.globenv.verif_bindings()
+    }
+
+    pub fn verif_global_slots(&self) -> &[VCell] {
+        self.globenv.verif_slots()
+    }
+
+    pub fn verif_stack(&self) -> &[VCell] {
+        &self.stack.verif_all()[0..self.stack.get_sp() + 1]
+    }
+
+    pub fn verif_stack_all(&self) -> &[VCell] {
+        self.stack.verif_all()
+    }
+
+    pub fn verif_stack_capacity(&self) -> usize {
+        self.stack.len()
+    }
+
+    pub fn verif_sp(&self) -> usize {
+        self.stack.get_sp()
+    }
+
+    pub fn verif_bp(&self) -> usize {
+        self.bp
+    }
+
+    pub fn verif_ep(&self) -> usize {
+        self.ep
+    }
+
+    pub fn verif_ip(&self) -> (usize, usize) {
+        self.ip
+    }
+
+    pub fn verif_acc(&self) -> &VCell {
+        &self.acc
+    }
+
+    pub fn verif_heap_capacity(&self) -> usize {
+        self.heap.capacity()
+    }
+
+    pub fn verif_heap_used(&self) -> usize {
+        self.heap.used_size()
+    }
+
+    pub fn verif_heap_chunk_size(&self) -> usize {
+        self.heap.chunk_size()
+    }
+
+    // --------------------------------------------------- forced collections
+    pub fn verif_set_gc_every(&mut self, every: Option<usize>) {
+        self.verif.gc_every = every.filter(|n| *n > 0);
+    }
+
+    pub fn verif_set_gc_random(&mut self, random: Option<(u64, u64)>) {
+        self.verif.gc_random = random.map(|(seed, m)| (seed | 1, m.max(1)));
+    }
+
+    pub fn verif_set_gc_observer(&mut self, observer: Option<GcObserver>) {
+        self.verif.observer = observer;
+    }
+
+    pub fn verif_gc_count(&self) -> u64 {
+        self.verif.gc_count
+    }
+
+    pub fn verif_gc_forced_count(&self) -> u64 {
+        self.verif.gc_forced_count
+    }
+
+    pub fn verif_instructions(&self) -> u64 {
+        self.verif.instructions
+    }
+
+    /// One collection now, whatever the utilisation.
+    pub fn verif_force_gc(&mut self) {
+        self.verif.force_next = true;
+        self.run_gc();
+        self.verif.force_next = false;
+    }
+
+    /// Called by `run_count` at every instruction boundary.
+    pub(crate) fn verif_tick(&mut self) {
+        self.verif.instructions += 1;
+        let mut due = false;
+        if let Some(n) = self.verif.gc_every {
+            if self.verif.instructions % (n as u64) == 0 {
+                due = true;
+            }
+        }
+        if let Some((state, m)) = self.verif.gc_random {
+            let mut x = state;
+            x ^= x << 13;
+            x ^= x >> 7;
+            x ^= x << 17;
+            self.verif.gc_random = Some((x, m));
+            if x % m == 0 {
+                due = true;
+            }
+        }
+        if due {
+            self.verif_force_gc();
+        }
+    }
+
+    /// Called at the head of `run_gc`. For a forced collection the free list is
+    /// taken out of the heap, so that the utilisation test that follows sees a
+    /// full heap and lets the collection proceed; `verif_gc_begin` puts it back
+    /// before anything is marked.
+    pub(crate) fn verif_gc_enter(&mut self) -> Option<Vec<usize>> {
+        if self.verif.force_next {
+            self.verif.force_next = false;
+            self.verif.in_forced = true;
+            Some(self.heap.verif_take_free_list())
+        } else {
+            self.verif.in_forced = false;
+            None
+        }
+    }
+
+    /// Called in `run_gc` after the utilisation test (so: only when the
+    /// collection runs) and before the first root is marked.
+    pub(crate) fn verif_gc_begin(&mut self, saved: Option<Vec<usize>>) {
+        if let Some(free_list) = saved {
+            self.heap.verif_restore_free_list(free_list);
+        }
+        let forced = self.verif.in_forced;
+        self.verif.gc_count += 1;
+        if forced {
+            self.verif.gc_forced_count += 1;
+        }
+        self.verif_observe(GcEvent::Before { forced });
+    }
+
+    /// Called in `run_gc` after `sweep()`, before the growth test.
+    pub(crate) fn verif_gc_after_sweep(&mut self) {
+        let forced = self.verif.in_forced;
+        self.verif.in_forced = false;
+        self.verif_observe(GcEvent::AfterSweep { forced });
+    }
+
+    fn verif_observe(&mut self, event: GcEvent) {
+        if let Some(mut observer) = self.verif.observer.take() {
+            observer(self, event);
+            if self.verif.observer.is_none() {
+                self.verif.observer = Some(observer);
+            }
+        }
+    }
+}
